@@ -40,12 +40,17 @@ def volatile_fields(cls):
     out = set()
     if f is None:
         return out
-    for n in ast.walk(f.node):
-        if isinstance(n, ast.Attribute) and isinstance(n.ctx, ast.Store) and isinstance(n.value, ast.Name) and n.value.id == "self":
-            name = n.attr
-            if name.startswith("__") and not name.endswith("__"):
-                name = "_" + c.name.lstrip("_") + name
-            out.add(name)
+    # exit flags: attributes that endCompetition() sets to a constant True / False (plain assignment); other attributes
+    # it touches (resources it releases, ...) are ordinary state
+    for st in ast.walk(f.node):
+        if not isinstance(st, ast.Assign) or not (isinstance(st.value, ast.Constant) and isinstance(st.value.value, bool)):
+            continue
+        for n in st.targets:
+            if isinstance(n, ast.Attribute) and isinstance(n.value, ast.Name) and n.value.id == "self":
+                name = n.attr
+                if name.startswith("__") and not name.endswith("__"):
+                    name = "_" + c.name.lstrip("_") + name
+                out.add(name)
     return out
 
 
